@@ -681,10 +681,10 @@ func ruleOPS2(c *Ctx) []Ob {
 
 // panicTies: explicit panic sites and the rule that makes each unreachable.
 var panicTies = map[string]string{
-	"util.ToFloat64":             "only canonical numbers arrive: CMP4 (operands normalised) + CMP5 (Normalize yields int64/uint64/float64)",
-	"util.ToInt64":               "only int64/uint64 arrive: CMP4 + CMP5",
+	"util.ToFloat64":              "only canonical numbers arrive: CMP4 (operands normalised) + CMP5 (Normalize yields int64/uint64/float64)",
+	"util.ToInt64":                "only int64/uint64 arrive: CMP4 + CMP5",
 	"query.UnaryCriteria.compare": "OPS1: operators routed to compare are a subset of its inner switch",
-	"index.extractDocId":         "KEY3: every index key is written with the 36-byte document id appended (validated uuid, ID2)",
+	"index.extractDocId":          "KEY3: every index key is written with the 36-byte document id appended (validated uuid, ID2)",
 }
 
 func rulePANIC1(c *Ctx) []Ob {
@@ -1045,9 +1045,10 @@ func elementIndex(v ssa.Value, isSlice func(ssa.Value) bool, val func(ssa.Value)
 // decided by abstract evaluation of UnaryCriteria.Satisfy over every equality
 // pattern between the listed operands and the document's values, for operand
 // lists and arrays of length 1 and 2:
-//   In(v1..vm)        <=> some vi compares equal to the field's value
-//   Contains(e1..em)  <=> every ei compares equal to some element of the array field
-//   Eq                <=> the field is present and compares equal; Exists <=> present
+//
+//	In(v1..vm)        <=> some vi compares equal to the field's value
+//	Contains(e1..em)  <=> every ei compares equal to some element of the array field
+//	Eq                <=> the field is present and compares equal; Exists <=> present
 func ruleOPS5(c *Ctx) []Ob {
 	o := newObs(c, "OPS5")
 	sat := c.lookupMethod("query", "UnaryCriteria", "Satisfy")
@@ -1098,6 +1099,7 @@ func ruleOPS5(c *Ctx) []Ob {
 		}
 		return false
 	}
+	docNil := false
 	eval := func(op int64, m, n int, has bool, docIsArray bool, eq func(i, j int64) bool) (bool, string) {
 		te := c.newTagEval()
 		te.maxVisits = 8
@@ -1128,6 +1130,9 @@ func ruleOPS5(c *Ctx) []Ob {
 			case hasM:
 				return []aval{boolConst(has)}, true
 			case getM:
+				if docNil {
+					return []aval{{K: aTag, Tag: nil}}, true
+				}
 				if docIsArray {
 					return []aval{tagOf(sliceT)}, true
 				}
@@ -1173,6 +1178,20 @@ func ruleOPS5(c *Ctx) []Ob {
 				report(key, got, why, want, fmt.Sprintf("In with %d listed values of which the field equals pattern %0*b", m, m, mask))
 			}
 		}
+	}
+	// the same definition holds when the field's value is nil (nil is a legal listed value)
+	if k, ok := c.opConst("InOp"); ok {
+		docNil = true
+		for m := 1; m <= 2; m++ {
+			for mask := 0; mask < 1<<uint(m); mask++ {
+				mask := mask
+				want := mask != 0
+				got, why := eval(k, m, 1, true, false, func(i, _ int64) bool { return mask&(1<<uint(i)) != 0 })
+				key := fmt.Sprintf("In on a nil field value: %d operands, equal pattern %0*b", m, m, mask)
+				report(key, got, why, want, fmt.Sprintf("In with %d listed values against a field whose value is nil (equal pattern %0*b)", m, m, mask))
+			}
+		}
+		docNil = false
 	}
 	if k, ok := c.opConst("ContainsOp"); ok {
 		for m := 1; m <= 2; m++ {
